@@ -50,21 +50,22 @@ theorem pvSet_congr (c d : PV) (i : Nat) (x : Option Bool) (he : ∀ j, pvGet d 
 
 /-- one entry `(p, Some(true))` of the stack of `to_dnf` -/
 theorem dnfLoop_sub {A : Arr} {n : Nat} (h : Red A n) :
-    ∀ p, p < A.size → ∀ stk path res, Free path (varOf A n p) →
+    ∀ p, p < A.size → ∀ stk path res, Free path (varOf A n p) → (∀ j, n ≤ j → pvGet path j = none) →
       ∃ k path' R, (∀ fuel, dnfLoop A (fuel + k) ((p, some true) :: stk) path res =
             dnfLoop A fuel stk path' (res ++ R)) ∧
         (∀ i, pvGet path' i = pvGet path i) ∧
-        R.map (pvNorm n) = (paths A p path).map (pvNorm n) ∧ k + 3 ≤ 4 * 2 ^ p := by
+        R.map (pvNorm n) = (paths A p path).map (pvNorm n) ∧ k + 3 ≤ 4 * 2 ^ p ∧
+        (∀ c, c ∈ R → ∀ j, n ≤ j → pvGet c j = none) := by
   intro p
   induction p using Nat.strongRecOn with
   | _ p ih =>
-    intro hp stk path res hfree
+    intro hp stk path res hfree hb
     by_cases h0 : p = 0
     · subst h0
-      exact ⟨1, path, [], fun fuel => by rw [dnfLoop_zero]; simp, fun _ => rfl, by simp [paths_zero], by simp⟩
+      exact ⟨1, path, [], fun fuel => by rw [dnfLoop_zero]; simp, fun _ => rfl, by simp [paths_zero], by simp, by simp⟩
     by_cases h1 : p = 1
     · subst h1
-      exact ⟨1, path, [path], fun fuel => by rw [dnfLoop_one], fun _ => rfl, by simp [paths_one], by simp⟩
+      exact ⟨1, path, [path], fun fuel => by rw [dnfLoop_one], fun _ => rfl, by simp [paths_one], by simp, by intro c hc; simp at hc; rw [hc]; exact hb⟩
     have hp2 : 2 ≤ p := by omega
     have hnd : A[p]? = some A[p] := by simp [hp]
     obtain ⟨hv, hl, hh, _, hvl, hvh⟩ := h.inner p A[p] hp2 hnd
@@ -73,8 +74,10 @@ theorem dnfLoop_sub {A : Arr} {n : Nat} (h : Red A n) :
     -- low sub-diagram
     have hfl : Free (pvSet path A[p].var (some false)) (varOf A n A[p].low) :=
       Free.pvSet hfree _ _ hvl (by omega)
-    obtain ⟨kl, path1, Rl, hrunl, hextl, hRl, hkl⟩ :=
-      ih _ hl (by omega) ((p, some false) :: stk) (pvSet path A[p].var (some false)) res hfl
+    have hbl : ∀ j, n ≤ j → pvGet (pvSet path A[p].var (some false)) j = none := by
+      intro j hj; rw [pvGet_pvSet_ne _ _ _ _ (by omega)]; exact hb j hj
+    obtain ⟨kl, path1, Rl, hrunl, hextl, hRl, hkl, hbRl⟩ :=
+      ih _ hl (by omega) ((p, some false) :: stk) (pvSet path A[p].var (some false)) res hfl hbl
     -- high sub-diagram
     have hext1 : ∀ j, pvGet (pvSet path1 A[p].var (some true)) j = pvGet (pvSet path A[p].var (some true)) j := by
       intro j
@@ -84,9 +87,11 @@ theorem dnfLoop_sub {A : Arr} {n : Nat} (h : Red A n) :
       · rename_i hj; rw [hextl, pvGet_pvSet_ne _ _ _ _ hj]
     have hfh : Free (pvSet path1 A[p].var (some true)) (varOf A n A[p].high) :=
       Free.congr (Free.pvSet hfree _ _ hvh (by omega)) hext1
-    obtain ⟨kh, path2, Rh, hrunh, hexth, hRh, hkh⟩ :=
-      ih _ hh (by omega) ((p, none) :: stk) (pvSet path1 A[p].var (some true)) (res ++ Rl) hfh
-    refine ⟨kl + kh + 3, pvSet path2 A[p].var none, Rl ++ Rh, ?_, ?_, ?_, ?_⟩
+    have hbh : ∀ j, n ≤ j → pvGet (pvSet path1 A[p].var (some true)) j = none := by
+      intro j hj; rw [hext1, pvGet_pvSet_ne _ _ _ _ (by omega)]; exact hb j hj
+    obtain ⟨kh, path2, Rh, hrunh, hexth, hRh, hkh, hbRh⟩ :=
+      ih _ hh (by omega) ((p, none) :: stk) (pvSet path1 A[p].var (some true)) (res ++ Rl) hfh hbh
+    refine ⟨kl + kh + 3, pvSet path2 A[p].var none, Rl ++ Rh, ?_, ?_, ?_, ?_, ?_⟩
     · intro fuel
       have e : fuel + (kl + kh + 3) = (fuel + 1 + kh + 1 + kl) + 1 := by omega
       rw [e, dnfLoop_low A _ p stk path res hp2 _ hnd, hrunl,
@@ -106,5 +111,10 @@ theorem dnfLoop_sub {A : Arr} {n : Nat} (h : Red A n) :
       have e2 : 2 ^ A[p' + 1].high ≤ 2 ^ p' := Nat.pow_le_pow_right (by omega) (by omega)
       rw [Nat.pow_succ]
       omega
+    · intro c hc
+      rw [List.mem_append] at hc
+      rcases hc with hc | hc
+      · exact hbRl c hc
+      · exact hbRh c hc
 
 end B.Iter
